@@ -22,7 +22,7 @@
 //!       Real `repair_index(read_all)` runs; then all index files are read.
 //!       -> `ok <label>:u<unmarked listings>m<marked listings><=|x>,… ?<listings of unknown packs>`
 //!  * `repo <variant> <seed>`       oracle only (model prints `ok`): real repository on `MemBackend`; backups, then
-//!       variant ∈ backup | prune-fast | prune-copy | prune-all | copy; afterwards EVERY pack in the store is opened by the
+//!       variant ∈ backup | prune-fast | prune-copy | prune-all | copy | merge; afterwards EVERY pack in the store is opened by the
 //!       independent parser below with the master key and compared with the index.
 //!  * `repair <variant> <seed>`     oracle only: as `repo`, then a seeded subset of index files (variant all|some|none +
 //!       optional `-readall`) is deleted, `repair_index` runs, then `check` must be clean and every snapshot must read
@@ -422,8 +422,8 @@ pub fn generate(thorough: bool, rng: &mut Rng, ops: &mut Vec<String>, stats: &mu
         ));
     }
     // --- repositories
-    let variants = ["backup", "prune-fast", "prune-copy", "prune-all", "copy"];
-    let n_repo = if thorough { 60 } else { 10 };
+    let variants = ["backup", "prune-fast", "prune-copy", "prune-all", "copy", "merge"];
+    let n_repo = if thorough { 72 } else { 12 };
     for i in 0..n_repo {
         let v = variants[i % variants.len()];
         stats.hit(format!("repo.{v}"));
@@ -840,6 +840,18 @@ fn build(rng: &mut Rng, variant: &str) -> Result<Scenario, String> {
             let forget = rng.chance(1, 2);
             prune(base, forget, &mut snaps)?;
         }
+        "merge" => {
+            // merge all snapshots into a new one (writes new tree packs); the old snapshots stay and must read back
+            let repo = h.open_nocache().map_err(|e| errkind(&e))?.to_indexed_ids().map_err(|e| errkind(&e))?;
+            let all: Vec<SnapshotFile> = snaps.iter().map(|(s, _)| s.clone()).collect();
+            let snap = SnapshotOptions::default().to_snapshot().map_err(|e| errkind(&e))?;
+            let merged = repo
+                .merge_snapshots(&all, &|a: &rustic_core::repofile::Node, b: &rustic_core::repofile::Node| a.meta.mtime.cmp(&b.meta.mtime), snap)
+                .map_err(|e| errkind(&e))?;
+            // the merged snapshot must be readable as a whole (content = some union; only readability is required here)
+            let r2 = h.open_nocache().map_err(|e| errkind(&e))?.to_indexed().map_err(|e| errkind(&e))?;
+            _ = repo::read_back(&r2, &merged).map_err(|_| "oracle-fail:merged-snapshot-unreadable".to_string())?;
+        }
         "copy" => {
             let cfg2 = config_for(rng);
             let (h2, _r2) = RepoHandle::init_nocache(MemBackend::new(), None, &cfg2).map_err(|e| errkind(&e))?;
@@ -1155,7 +1167,7 @@ pub fn exec(t: &[&str]) -> String {
         ["pack", t, adds, reads] => exec_pack(t, adds, reads),
         ["rix", ra, packs, files] if *ra == "0" || *ra == "1" => exec_rix(*ra == "1", packs, files),
         ["repo", variant, seed] => match seed.parse::<u64>() {
-            Ok(s) if ["backup", "prune-fast", "prune-copy", "prune-all", "copy"].contains(variant) => exec_repo(variant, s),
+            Ok(s) if ["backup", "prune-fast", "prune-copy", "prune-all", "copy", "merge"].contains(variant) => exec_repo(variant, s),
             _ => "bad-op".into(),
         },
         ["repair", variant, seed] => match seed.parse::<u64>() {
